@@ -65,6 +65,11 @@ func asDoc(bs []Value) (*Doc, bool) {
 }
 
 func (e *Engine) docLen(d *Doc) Value {
+	if d.lenV == nil && e.concrete {
+		// concrete (conformance) runs: any positive length; the native side has the real one,
+		// a harness that depends on more than "non-empty" shows up as a trace mismatch
+		d.lenV = e.ts.Int(2)
+	}
 	if d.lenV == nil {
 		t := e.freshAux("doclen", sortInt)
 		e.assumeTermAlways(e.ts.And(e.ts.mk(sortBool, "<=", e.ts.Int(1), t), e.ts.mk(sortBool, "<=", t, e.ts.Int(1<<30))))
